@@ -11,6 +11,15 @@ CHECKS = {
           'per-constituent container, RecalculateAll clears first and iterates topologically. Holds for all histories because it holds for all paths of the code.',
   'note': 'Does not decide that recalculated values are equal to fresh ones (value-level). Trusts clang 14 AST/CFG, the call resolution of the extractor and the exemption table in rules/C11.py (insert/load paths).',
  },
+ 'C20': {
+  'technique': 'AST summarisation + exhaustive evaluation over order types (finite quotient domain) and the 256-value lead-byte table; structural sibling rule for the iterator',
+  'text': 'Decides the interval half of the property exactly: every StrRange relation, Intersect and the Merge step is summarised from the typed AST and '
+          'evaluated on all order types of the four end points, which is complete for all integers because the bodies only compare; compared with the '
+          'end-point definitions (DESIGN.md Appendix A) plus duality/symmetry laws. UTF8CharSize is tabulated over its whole domain; the two iterator '
+          'advance routines are checked structurally (advance by SymbolSize, index by one, end test).',
+  'note': 'String index arithmetic (SplitBySymbol, TrimWhitespace, IsInteger, Substr, SizeInCodePoints) is NOT decided: it quantifies over unbounded strings and no sound '
+          'abstract interpreter for this C++ is available here. Overlaps on empty ranges is only required to be symmetric (class documents position semantics). Trusts the mini-evaluator (engine/evalmini.py).',
+ },
 }
 
 _PENDING = 'rule module not yet implemented in this round; see DESIGN.md section 4 for the clauses planned'
